@@ -1566,6 +1566,10 @@ def _opt_mod_at_call(repo, res, eff, tq, tfn, cfg, nid, call, depth=0):
 # ---- self-validation variants -------------------------------------------------------------------------------
 _A = "rl_blox/algorithm/"
 MUTANTS = [
+    # the same record, filled crosswise: the actor is updated with the critic's optimizer
+    {"id": "c05-ddpg-record-carrier-crossed", "file": _A + "ddpg.py", "rule": "R2", "edits": [
+        ("from .dqn import train_step_with_loss\n", "from .dqn import train_step_with_loss\nimport typing\n\n\nclass _Nets(typing.NamedTuple):\n    policy: nnx.Module\n    policy_optimizer: nnx.Optimizer\n    q: nnx.Module\n    q_optimizer: nnx.Optimizer\n"),
+        ("                actor_loss_value = ddpg_update_actor(\n                    policy, policy_optimizer, q, batch.observation\n                )", "                nets = _Nets(policy=policy, policy_optimizer=q_optimizer, q=q, q_optimizer=policy_optimizer)\n                actor_loss_value = ddpg_update_actor(\n                    nets.policy, nets.policy_optimizer, nets.q, batch.observation\n                )")]},
     {"id": "c05-lax-loop-copies-module", "file": "rl_blox/algorithm/reinforce.py", "rule": "R6", "find": "    v_loss = 0.0\n    for _ in range(value_gradient_steps):\n        v_loss, v_grad = nnx.value_and_grad(mse_value_loss, argnums=2)(\n            observations, returns, value_function\n        )\n        value_function_optimizer.update(value_function, v_grad)\n    return v_loss",
      "replace": "    def body(_, carry):\n        vf, opt, _ = carry\n        v_loss, v_grad = nnx.value_and_grad(mse_value_loss, argnums=2)(\n            observations, returns, vf\n        )\n        opt.update(vf, v_grad)\n        return vf, opt, v_loss\n\n    _, _, v_loss = jax.lax.fori_loop(\n        0, value_gradient_steps, body, (value_function, value_function_optimizer, 0.0)\n    )\n    return v_loss"},
     {"id": "c05-dqn-argnums", "file": _A + "dqn.py", "rule": "R", "find": "    grad_fn = nnx.value_and_grad(loss, argnums=0, has_aux=True)\n    value, grad = grad_fn(q, *args, **kwargs)", "replace": "    grad_fn = nnx.value_and_grad(loss, argnums=0, has_aux=True)\n    value, grad = grad_fn(q, *args, **kwargs)\n    q = args[0]"},
@@ -1623,6 +1627,10 @@ MUTANTS = [
      "replace": "        current = nnx.state(embedding)\n        snapshot = nnx.merge(nnx.graphdef(embedding), current)\n        policy.embedding = snapshot\n"},
 ]
 BENIGN = [
+    # networks and optimizers carried in a class-based NamedTuple: a field of the record is the object passed for it
+    {"id": "c05-b-ddpg-record-carrier", "file": _A + "ddpg.py", "edits": [
+        ("from .dqn import train_step_with_loss\n", "from .dqn import train_step_with_loss\nimport typing\n\n\nclass _Nets(typing.NamedTuple):\n    policy: nnx.Module\n    policy_optimizer: nnx.Optimizer\n    q: nnx.Module\n    q_optimizer: nnx.Optimizer\n"),
+        ("                actor_loss_value = ddpg_update_actor(\n                    policy, policy_optimizer, q, batch.observation\n                )", "                nets = _Nets(policy=policy, policy_optimizer=policy_optimizer, q=q, q_optimizer=q_optimizer)\n                actor_loss_value = ddpg_update_actor(\n                    nets.policy, nets.policy_optimizer, nets.q, batch.observation\n                )")]},
     {"id": "c05-b-dqn-inline-gradfn", "file": _A + "dqn.py", "find": "    grad_fn = nnx.value_and_grad(loss, argnums=0, has_aux=True)\n    value, grad = grad_fn(q, *args, **kwargs)", "replace": "    value, grad = nnx.value_and_grad(loss, argnums=0, has_aux=True)(\n        q, *args, **kwargs\n    )"},
     {"id": "c05-b-ddpg-rename-grads", "file": _A + "ddpg.py", "find": "    actor_loss_value, grads = nnx.value_and_grad(\n        deterministic_policy_gradient_loss, argnums=2\n    )(q, observation, policy)\n    policy_optimizer.update(policy, grads)", "replace": "    actor_loss_value, g_policy = nnx.value_and_grad(\n        deterministic_policy_gradient_loss, argnums=2\n    )(q, observation, policy)\n    policy_optimizer.update(policy, g_policy)"},
     {"id": "c05-b-sac-local-fn", "file": _A + "sac.py", "find": "    loss, grads = nnx.value_and_grad(sac_actor_loss, argnums=0)(\n        policy, q, alpha, action_key, observation\n    )", "replace": "    loss_and_grad = nnx.value_and_grad(sac_actor_loss, argnums=0)\n    loss, grads = loss_and_grad(policy, q, alpha, action_key, observation)"},
